@@ -155,8 +155,8 @@ func analyseLocks(c *Ctx, pkgRel, typeName string) *lockInfo {
 			li.transport = i
 		}
 	}
-	if li.mutex < 0 || li.transport < 0 {
-		fatal("unresolved anchor: %s has no mutex/transport field", typeName)
+	if li.mutex < 0 {
+		fatal("unresolved anchor: %s has no mutex field", typeName)
 	}
 	memo := map[*ssa.Function]bool{}
 	fresh := map[*ssa.Function]bool{}
@@ -347,7 +347,7 @@ func (li *lockInfo) fromTransport(v ssa.Value) bool {
 		return false
 	}
 	fa, ok := u.X.(*ssa.FieldAddr)
-	return ok && fa.Field == li.transport && types.Identical(deref(fa.X.Type()), li.tn)
+	return ok && li.transport >= 0 && fa.Field == li.transport && types.Identical(deref(fa.X.Type()), li.tn)
 }
 
 func checkC14(c *Ctx, r *Report) {
